@@ -2,6 +2,7 @@ import Lean.Data.Json
 import MC.Spec.Variant
 import MC.Model.Preproc
 import MC.Model.Prefs
+import MC.Model.Nav
 open Lean
 
 namespace MC.Driver
@@ -81,7 +82,55 @@ def handlePrefs (op : String) (req : Json) : Option Json :=
       Json.arr #[toJson k, toJson (match v with | .str _ => "str" | .bool _ => "bool" | .num _ => "num"), toJson v.render]).toArray
   | _ => none
 
-def handlers : List (String → Json → Option Json) := [handleVariant, handlePreproc, handlePrefs]
+/-- C11 ops -/
+def posOfJson (j : Json) : MC.Nav.Pos :=
+  let a := j.getArr?.toOption.getD #[]
+  ⟨((a[0]?.getD Json.null).getStr?).toOption.getD "", ((a[1]?.getD Json.null).getNat?).toOption.getD 0⟩
+
+def posToJson (p : MC.Nav.Pos) : Json := Json.arr #[toJson p.id, toJson p.off]
+
+def arrOf (j : Json) (k : String) : Array Json := ((j.getObjVal? k).toOption.getD (Json.arr #[])).getArr?.toOption.getD #[]
+def boolOf (j : Json) (k : String) : Bool := ((j.getObjVal? k).toOption.getD (Json.bool false)).getBool?.toOption.getD false
+
+/-- hook format: stacks bottom first; model: top first -/
+def navOfJson (j : Json) : MC.Nav.NavState :=
+  { positions := ((arrOf j "positions").toList.map posOfJson).reverse,
+    commands := ((arrOf j "commands").toList.map fun c => c.getStr?.toOption.getD "").reverse,
+    markers := (arrOf j "markers").toList.map posOfJson,
+    mode := getStr j "mode", overview := boolOf j "overview" }
+
+def navToJson (s : MC.Nav.NavState) : Json :=
+  Json.mkObj [("positions", Json.arr (s.positions.reverse.map posToJson).toArray),
+              ("commands", Json.arr (s.commands.reverse.map fun c => toJson c).toArray),
+              ("markers", Json.arr (s.markers.map posToJson).toArray),
+              ("mode", toJson s.mode), ("overview", toJson s.overview)]
+
+def tryOfJson (j : Json) : MC.Nav.Try :=
+  { ruleErr := boolOf j "rule_err", node := some ⟨getStr j "node", getNat j "off"⟩, mode := getStr j "mode",
+    overview := boolOf j "overview", inTree := boolOf j "in_tree", speak := boolOf j "speak",
+    speakErr := boolOf j "speak_err", speechEmpty := boolOf j "speech_empty" }
+
+def navOutcome (o : MC.Nav.Outcome MC.Nav.NavState) : Json :=
+  match o with
+  | .ok s => okJ (navToJson s)
+  | .err k => errJ k ""
+  | .panic p => panicJ p
+
+def handleNav (op : String) (req : Json) : Option Json :=
+  match op with
+  | "nav_init" => some (okJ (navToJson MC.Nav.init))
+  | "nav_new_mathml" => some (okJ (navToJson (MC.Nav.resetForNewMathml (navOfJson ((req.getObjVal? "state").toOption.getD Json.null)))))
+  | "nav_set_node" =>
+    let s := navOfJson ((req.getObjVal? "state").toOption.getD Json.null)
+    some (navOutcome (MC.Nav.setNode s (getStr req "id") (getNat req "off") (boolOf req "found") (boolOf req "leaf")))
+  | "nav_cmd" =>
+    let s := navOfJson ((req.getObjVal? "state").toOption.getD Json.null)
+    let ids := (arrOf req "ids").toList.map fun c => c.getStr?.toOption.getD ""
+    let tries := (arrOf req "tries").toList.map tryOfJson
+    some (navOutcome (MC.Nav.doCommand (getStr req "root") (fun i => ids.contains i) (getStr req "cmd") tries s))
+  | _ => none
+
+def handlers : List (String → Json → Option Json) := [handleVariant, handlePreproc, handlePrefs, handleNav]
 
 def handle (req : Json) : Json :=
   let op := getStr req "op"
